@@ -561,7 +561,7 @@ def run(ctx):
     jobs = jobs + jm
     # grouped TPM tables (a read group whose column total lies between 0 and 1): every group column is its counts column rescaled
     from props import c09
-    jd = [(st, ctx.scratch) for st in ("with_ambiguous", "all", "unique_only")]
+    jd = [(st, ctx.scratch) for st in ("with_ambiguous", "all", "unique_only", ("unique_only", "all"), ("all", "unique_only"))]
     for key, errs in core.pmap(c09.l3d_case, jd):
         for k, msg in errs:
             ctx.violation("l3d:%s" % k, "strategy %s: %s" % (key, msg), {"l3d": key})
